@@ -6,7 +6,8 @@ META = META_ALL["C14"]
 
 
 def run(ctx):
-    return hp.check(ctx, "C14", META["level"], META["rule"], META["assumptions"])
+    return hp.check(ctx, "C14", META["level"], META["rule"], META["assumptions"],
+                    extra_explore=hp.c14_fho_explore)
 
 
 def replay(ctx, path):
